@@ -1010,6 +1010,12 @@ int run_families(const FamilyCtx& ctx, vu::Result& res) {
         run_c15(j, T ? 20000 : 400);
     } else if (P == "C16") {
         run_c16_api(j, T ? 100000 : 2000);
+    } else if (P == "C17") {
+        // every packet the real client writes in these workloads goes through the independent decoder
+        run_mix(j, knobs_for("c01-mix"), "c01-mix", T ? 30000 : 1200);
+        run_mix(j, knobs_for("c14-mix"), "c14-mix", T ? 30000 : 800);
+        run_mix(j, knobs_for("c04-mix"), "c04-mix", T ? 30000 : 800);
+        run_c10(j, T ? 30000 : 1200);
     } else if (P == "C19") {
         run_c19(j, T ? 60000 : 1000);
     } else if (P == "C13") {
